@@ -247,6 +247,11 @@ def aliasToks : Str × Option Str → List Tok
   | (n, none) => dottedToks n
   | (n, some a) => dottedToks n ++ [kw cs!"as", .name a]
 
+/-- a name of `from m import …`: plain names (or `*`) with optional `as` -/
+def fromAliasToks : Str × Option Str → List Tok
+  | (n, none) => if n = ['*'] then [tStar] else [Tok.name n]
+  | (n, some a) => [Tok.name n, kw cs!"as", Tok.name a]
+
 def joinToks (sep : List Tok) : List (List Tok) → List Tok
   | [] => []
   | [x] => x
@@ -283,10 +288,7 @@ def genStmt (ind : Nat) : PyStmt → List Line
   | .import_ ns => [⟨ind, kw cs!"import" :: joinToks [tComma] (ns.map aliasToks)⟩]
   | .importFrom m ns lvl =>
       [⟨ind, kw cs!"from" :: (dotsToks lvl ++ (match m with | some m => dottedToks m | none => [])
-              ++ kw cs!"import" :: joinToks [tComma] (ns.map fun a =>
-                    match a with
-                    | (n, none) => (if n = ['*'] then [tStar] else [Tok.name n])
-                    | (n, some a) => [Tok.name n, kw cs!"as", Tok.name a]))⟩]
+              ++ kw cs!"import" :: joinToks [tComma] (ns.map fromAliasToks))⟩]
   | .if_ t b o =>
       ⟨ind, kw cs!"if" :: (gen t ++ [tColon])⟩ :: (genBody (ind + 1) b ++ genElse ind o)
   | .while_ t b o =>
